@@ -782,11 +782,21 @@ fn mon_c08(snap: &Snap, workers: usize, limit: usize, armed: &mut BTreeMap<Strin
                         Rec::AcceptQueueBefore(q) | Rec::AcceptProcessed(q) => q.iter().any(|x| x == &format!("Worker({worker})")),
                         _ => false,
                     };
-                    let replaced = snap.log[..i].iter().rev().take_while(|(_, _, r)| !is_this_idx(r)).any(|(_, _, r)| handle_stored(r));
+                    let replaced = snap.log[..i].iter().rev().take_while(|(_, _, r)| !is_this_idx(r)).any(|(_, _, r)| handle_stored(r))
+                        // ... or in this very accept turn (what the turn took off its queue is recorded at its end)
+                        || snap.log[i..].iter().find_map(|(_, _, r)| if let Rec::AcceptProcessed(q) = r { Some(q.iter().any(|x| x == &format!("Worker({worker})"))) } else { None }).unwrap_or(false);
                     let failed = matches!(snap.log.get(i + 1).map(|x| &x.2), Some(Rec::DispatchFailed { .. }));
                     if !failed && !replaced {
-                        out.push(("C08:dead-worker-accepted-a-connection".to_string(), format!("step {}: connection {:?} was sent to worker {worker} after that worker had died, and the send succeeded (its connection channel was still open), so the connection is lost instead of being re-routed", snap.log[i].0, conn)));
-                        return out;
+                        // where was the dying worker at that moment? Still unwinding (it has just
+                        // announced a free slot from the drop of a connection guard: finding F10), or
+                        // already being taken apart (then its channel must have been closed first)
+                        let last_point = snap.log[..i].iter().rev().find_map(|(_, _, r)| if let Rec::PointSeen(p) = r { Some(*p) } else { None });
+                        let unwinding = matches!(last_point, Some(crate::sys::Pt::Hook(actix_server::verif::Point::AfterWake)) | Some(crate::sys::Pt::Hook(actix_server::verif::Point::AfterPush)) | Some(crate::sys::Pt::Hook(actix_server::verif::Point::AfterDec(_))));
+                        let sig = if unwinding { "C08:dead-worker-accepted-a-connection:while-it-unwinds-from-a-panic-inside-call" } else { "C08:dead-worker-accepted-a-connection" };
+                        out.push((sig.to_string(), format!("step {}: connection {:?} was sent to worker {worker} after that worker had {}, and the send succeeded (its connection channel was still open), so the connection is lost instead of being re-routed", snap.log[i].0, conn, if unwinding { "begun to die (it is unwinding out of Service::call and the guard of the connection that killed it has just announced a free slot)" } else { "died" })));
+                        if !unwinding {
+                            return out;
+                        }
                     }
                 }
                 _ => {}
@@ -847,6 +857,22 @@ fn mon_c08(snap: &Snap, workers: usize, limit: usize, armed: &mut BTreeMap<Strin
     }
     if snap.quiescent && running(snap) {
         let Some(a) = &snap.accept else { return out };
+        // a worker that has died, whose handle the accept loop still holds and marks unavailable: its
+        // death can only be discovered by a failed send, nothing is sent to an unavailable worker,
+        // and only the dead worker itself could have announced availability - so it is never
+        // replaced (finding F10: connections that were queued at it, not yet received, keep its
+        // counter at the limit and are dropped without counting down)
+        for idx in &a.handles {
+            let died = snap.workers.iter().any(|w| w.idx == *idx && w.finished && snap.log.iter().any(|(_, _, r)| matches!(r, Rec::WorkerDying { slot } if *slot == w.slot)));
+            if died && snap.live_worker(*idx).is_none() && !snap.avail(*idx) {
+                let waiting: Vec<usize> = snap.conns.iter().enumerate().filter(|(_, c)| c.phase == Phase::Backlog && !c.eof).map(|(i, _)| i).collect();
+                out.push((
+                    "C08:dead-worker-never-discovered".to_string(),
+                    format!("quiescent: worker {idx} has died, the accept loop still holds its handle and marks it unavailable (counter {:?}), so nothing will ever be sent to it, its death is never discovered and no replacement is started (connections waiting: {:?})", a.counters.iter().find(|(i, _)| i == idx).map(|(_, c)| *c), waiting),
+                ));
+                break;
+            }
+        }
         if !dead_idx.is_empty() {
             out.push(("C08:dead-worker-not-replaced".to_string(), format!("quiescent: worker(s) {:?} were found dead by the accept loop and no replacement has joined the rotation (handles {:?}, worker slots {:?})", dead_idx, a.handles, snap.workers.iter().map(|w| (w.idx, w.view.is_some())).collect::<Vec<_>>())));
             return out;
@@ -911,7 +937,7 @@ impl Spec for SpecImpl {
             if self.bounds.nested_generic > 0 { format!(" generic-nesting={}", self.bounds.nested_generic) } else { String::new() },
             if self.cfg.silent_modes { " silent-readiness-changes" } else { "" },
             if self.cfg.factory_pending > 0 { format!(" factory-pending={}", self.cfg.factory_pending) } else { String::new() },
-            if self.bounds.conn_panics > 0 { format!(" service-future-panics={}", self.bounds.conn_panics) } else { String::new() }
+            format!("{}{}", if self.bounds.conn_panics > 0 { format!(" service-future-panics={}", self.bounds.conn_panics) } else { String::new() }, if self.bounds.call_kills > 0 { format!(" kills-inside-call={}", self.bounds.call_kills) } else { String::new() })
         )
     }
     fn check(&self, snap: &Snap, armed: &mut BTreeMap<String, u64>) -> Vec<(String, String)> {
@@ -1099,6 +1125,10 @@ fn specs_for(prop: &'static str, tier: Tier) -> Vec<SpecImpl> {
                 v.push(mk(cfg(2, &[Uds], 2), Bounds { connects: 3, kills: 1, ..Default::default() }));
                 // two faults in sequence (handle order is permuted by the first repair)
                 v.push(mk(cfg(2, &[Uds], 1), Bounds { connects: 2, kills: 2, completes: false, ..Default::default() }));
+                // the worker dies inside `Service::call`, with the connection's guard on the stack
+                // (saturated at limit 1): its death must still be discovered
+                v.push(mk(cfg(1, &[Uds], 1), Bounds { connects: 3, call_kills: 1, nested: 1, ..Default::default() }));
+                v.push(mk(cfg(2, &[Uds], 1), Bounds { connects: 3, call_kills: 1, nested: 1, completes: false, ..Default::default() }));
                 // the replacement arrives while the server is paused
                 v.push(mk(cfg(1, &[Uds], 1), Bounds { connects: 2, kills: 1, cmds: vec![Ev::Pause, Ev::Resume], max_cmds: 2, completes: false, ..Default::default() }));
             } else {
@@ -1355,6 +1385,7 @@ fn parse_ev(s: &str) -> Ev {
             "Ready" => Mode::Ready,
             "Pending" => Mode::Pending,
             "ErrOnce" => Mode::ErrOnce,
+            "PanicInCall" => Mode::PanicInCall,
             _ => Mode::PanicOnce,
         };
         Ev::SetReady { slot, svc, mode }
